@@ -29,7 +29,7 @@ ASSUMPTIONS = ["invocation counts are not compared (a wrapper with a defaulted b
 
 @st.composite
 def _case(draw, tier):
-    topo = draw(gen.g1_nodes(3, 8 if tier == "quick" else 10))
+    topo = draw(gen.g1_nodes(3, 8 if tier == "quick" else 10, p_const=0.15))  # incl. outputs whose value is None / falsy
     prod = ref.producers(topo)
     inputs = []
     for n in topo:
